@@ -18,6 +18,11 @@ Proof. exact (check_view_ok Std). Qed.
 (* any number of well-formed blocks, with any subset of their Outlook seams merged *)
 Theorem C02_body_wellformed : forall bs ts, Forall (ok_frag Std) bs -> merges (List.concat bs) ts -> ok_frag Std ts.
 Proof. exact (body_ok Std). Qed.
+(* the same with the premise weakened to what the readings can see: the observed body is a seam-merge of the blocks' own
+   bodies up to the attributes of start tags (a block may write other attributes depending on its neighbours) *)
+Theorem C02_body_wellformed_modulo_attributes : forall bs ts, Forall (ok_frag Std) bs ->
+  merges (map strip_attrs (List.concat bs)) (map strip_attrs ts) -> ok_frag Std ts.
+Proof. exact (body_ok_modulo_attrs Std). Qed.
 
 (* children inserted where no conditional comment is open, to any depth *)
 Theorem C02_fill_hole : forall a h b, ok_frag Std (a ++ b) -> (exists ea, view Std Closed a = Some (ea, Closed)) -> ok_frag Std h ->
@@ -64,3 +69,4 @@ Print Assumptions C02_body_wellformed.
 Print Assumptions C02_fill_hole.
 Print Assumptions C02_merge_check_sound.
 Print Assumptions C02_core_grammar_wellformed.
+Print Assumptions C02_body_wellformed_modulo_attributes.
